@@ -4,6 +4,10 @@ import itertools
 import zoo as zoolib
 
 ZOOS = ["three", "flat", "person", "doc", "nested", "samename", "deep"]
+# structs used by the WRITER-side checks only (C02, C03, C12): the generated writer is correct for them on the
+# unchanged tree, the generated reader is not (known C05 findings: three nested repeated groups, a list inside a
+# list below an optional struct), so the reader-side checks cannot use them
+WRITER_ZOOS = ZOOS + ["tri3", "lol"]
 
 
 def enum_inner(n, lens, leaf):
@@ -79,13 +83,13 @@ def partitions(rng, recs, mx):
     return out
 
 
-def file_cases(chk, zs, thorough, per_zoo_cap=None, large=False):
+def file_cases(chk, zs, thorough, per_zoo_cap=None, large=False, zoos=None):
     """[(zoo, max, codec, ops, tag)]"""
     out = []
     rng = chk.rng
     cap = per_zoo_cap or (1500 if thorough else 260)
     meta = {}
-    for name in ZOOS:
+    for name in (zoos or ZOOS):
         z = zs.get(name)
         if z is None:
             continue
@@ -150,6 +154,17 @@ def file_cases(chk, zs, thorough, per_zoo_cap=None, large=False):
         for n in (200, 700):
             rs = [g.record(z.nodes) for _ in range(n)]
             out.append((z, 100000, (n // 100) % 3 if name != "deep" else 0, [("a", r) for r in rs] + [("w",), ("c",)], "wide-levels"))
+    # more than 255 pages in one column chunk, and more than 255 row groups (counters narrower than int)
+    z = zs.get("three") if large else None
+    if z is not None:
+        g = zoolib.Gen(rng, mode="pool", p_nil=0.3, lens=(0, 1, 2))
+        rs = [g.record(z.nodes) for _ in range(300)]
+        for codec in (0, 2):
+            out.append((z, 1, codec, [("a", r) for r in rs] + [("w",), ("c",)], "many-pages"))
+        ops = []
+        for r in rs[:270]:
+            ops += [("a", r), ("w",)]
+        out.append((z, 5, 0, ops + [("c",)], "many-rowgroups"))
     # one very long string value
     z = zs.get("three") if large else None
     if z is not None:
